@@ -132,20 +132,25 @@ func (pvs *ProposalVoteStore) ResultSoFar(proposalID ProposalID, passPercent int
 	noPower := eachPower[OPIN_NEGATIVE]
 	yesPercentage := 0.0
 	noPercentage := 0.0
-	passPercentage := float64(passPercent) / 100.0
+	// the two decisions are taken in integers: in float64 (1.0 - no) < pass is true at the exact
+	// boundary for some pass percentages (66, 67, 68), which failed a proposal that the
+	// remaining votes could still pass. Without counted power both shares are 0 %
+	passed, failed := passPercent <= 0, passPercent > 100
 	if totalPower > 0 {
 		yesPercentage = float64(yesPower) / float64(totalPower)
 		noPercentage = float64(noPower) / float64(totalPower)
+		passed = yesPower*100 >= int64(passPercent)*totalPower
+		failed = (totalPower-noPower)*100 < int64(passPercent)*totalPower
 	}
 
 	// Proposal passed if received enough votes of YES
-	if yesPercentage >= passPercentage {
+	if passed {
 		logger.Detailf("%v, passed, YES percentage= %v", info, yesPercentage)
 		stat := NewVoteStatus(VOTE_RESULT_PASSED, yesPower, noPower, allPower)
 		return stat, nil
 	}
 	// Proposal failed if received enough votes of NO
-	if (1.0 - noPercentage) < passPercentage {
+	if failed {
 		logger.Detailf("%v, failed, NO percentage= %v", info, noPercentage)
 		stat := NewVoteStatus(VOTE_RESULT_FAILED, yesPower, noPower, allPower)
 		return stat, nil
